@@ -112,6 +112,76 @@ func RunC12(tier string) int {
 		fmt.Printf("  part pack-writer-faults: runs=%d\n", len(jobs))
 	}
 
+	// ---- (a2) Pack as an ordinary user: a directory that cannot be listed, at every position it can take ----
+	// (the source directory itself, a dereferenced outside directory = both walk roots, a sub-directory, a
+	// sub-directory of a dereferenced directory). Reading the tree fails there: the caller must be told, or —
+	// if Pack reports success — every file of the tree must be in the slug.
+	{
+		upool := core.NewPool(65534)
+		type lj struct {
+			name  string
+			nodes []TNode
+			deref bool
+			want  []string // regular entries a successful Pack must contain
+		}
+		ljs := []lj{
+			{"source directory without read permission", []TNode{{Path: "src/main.tf", Kind: "file", Body: "m"}, {Path: "src", Kind: "dir", Mode: 0300}}, false, []string{"main.tf"}},
+			{"dereferenced outside directory without read permission", []TNode{{Path: "src/main.tf", Kind: "file", Body: "m"}, {Path: "src/shared", Kind: "link", Target: "../out/shared"}, {Path: "out/shared/data.txt", Kind: "file", Body: "d"}, {Path: "out/shared", Kind: "dir", Mode: 0300}}, true, []string{"main.tf", "shared/data.txt"}},
+			{"sub-directory without read permission", []TNode{{Path: "src/main.tf", Kind: "file", Body: "m"}, {Path: "src/sub/x", Kind: "file", Body: "x"}, {Path: "src/sub", Kind: "dir", Mode: 0300}}, false, []string{"main.tf", "sub/x"}},
+			{"sub-directory of a dereferenced directory without read permission", []TNode{{Path: "src/main.tf", Kind: "file", Body: "m"}, {Path: "src/shared", Kind: "link", Target: "../out/shared"}, {Path: "out/shared/a", Kind: "file", Body: "a"}, {Path: "out/shared/sub/x", Kind: "file", Body: "x"}, {Path: "out/shared/sub", Kind: "dir", Mode: 0300}}, true, []string{"main.tf", "shared/a", "shared/sub/x"}},
+			{"source directory without search permission", []TNode{{Path: "src/main.tf", Kind: "file", Body: "m"}, {Path: "src", Kind: "dir", Mode: 0600}}, false, []string{"main.tf"}},
+		}
+		var jobs []PackArg
+		var which []int
+		for k, j := range ljs {
+			for _, ig := range []bool{false, true} {
+				jobs = append(jobs, PackArg{Nodes: j.nodes, Deref: j.deref, Ignore: ig, NoTrees: true, UID: 65534})
+				which = append(which, k)
+			}
+		}
+		told := 0
+		upool.Map("pack", len(jobs), func(i int) any { return jobs[i] }, func(i int, r core.Result) {
+			rep.Evaluations++
+			j := ljs[which[i]]
+			desc := fmt.Sprintf("uid=65534 Pack(ignore=%v deref=%v) of a tree with a %s [%s]", jobs[i].Ignore, jobs[i].Deref, j.name, TreeString(j.nodes))
+			if r.Hung || r.Crashed {
+				rep.Violation("slug.Pack/hang-or-crash", desc, "pack", jobs[i])
+				return
+			}
+			var out PackOut
+			core.MustOut(r, &out)
+			if out.SetupErr != "" {
+				core.Fatalf("C12 unlistable part: %s", out.SetupErr)
+			}
+			if out.Panic != "" {
+				rep.Violation("slug.Pack/panic", desc+" "+out.Panic, "pack", jobs[i])
+				return
+			}
+			if out.Err != "" {
+				told++
+				rep.Outcome("pack:unlistable-directory-reported")
+				rep.Nontrivial("unlistable:" + j.name)
+				return
+			}
+			rep.Outcome("pack:success-despite-unlistable-directory")
+			have := map[string]bool{}
+			for _, e := range out.Entries {
+				have[e.Name] = true
+			}
+			var missing []string
+			for _, w := range j.want {
+				if !have[w] {
+					missing = append(missing, w)
+				}
+			}
+			if len(missing) > 0 {
+				rep.Violation("slug.Pack/success-with-partial-slug", fmt.Sprintf("%s — Pack reported success but the slug lacks %v", desc, missing), "pack", jobs[i])
+			}
+		})
+		rep.States += len(jobs)
+		parts = append(parts, map[string]any{"part": "pack-unlistable-directory-uid-65534", "runs": len(jobs), "reported": told})
+		fmt.Printf("  part pack-unlistable-directory (uid 65534): runs=%d reported=%d\n", len(jobs), told)
+	}
 	// ---- (b) Unpack: the reader fails / ends at every byte offset ----
 	{
 		alpha := []tarx.Entry{{Name: "a", Kind: "reg", Body: "hello world"}, {Name: "d/", Kind: "dir", Mode: 0750}, {Name: "d/x", Kind: "reg", Body: "x"}, {Name: "l", Kind: "link", Target: "a"},
@@ -356,7 +426,7 @@ func RunC12(tier string) int {
 	rep.States = rep.Evaluations
 	rep.Transitions = rep.Evaluations
 	rep.Extra["parts"] = parts
-	rep.Rule = "E2, one deviation at a time: Pack on 6 trees × {deref} with the writer failing at EVERY byte offset (plain and short write); Unpack on every archive of <=2 (thorough 3) entries with the reader ending/failing (plain error, and an error that wraps io.EOF) at EVERY byte offset (thorough also 1-byte reads); builder: every callback (fetch, versions, source address, finder) of every error-free world (<=2 Adds, <=1/2 edges) is a choice point {ok, error; finders: error diag, warning diag, error diag with file ranges}, all single (thorough: double) deviations; every world of the same enumeration whose analysis cannot succeed (escaping local dependency, unsatisfiable constraint) is built fault-free and must report an error; at every callback boundary the target directory is copied and opened (crash points). Non-trivial = the injected fault was reached; distinct by (position, outcome)."
+	rep.Rule = "E2, one deviation at a time: Pack on 6 trees × {deref} with the writer failing at EVERY byte offset (plain and short write); Pack as uid 65534 on 5 trees with a directory that cannot be listed (the source itself, a dereferenced outside directory, sub-directories of both) — an error, or a complete slug; Unpack on every archive of <=2 (thorough 3) entries with the reader ending/failing (plain error, and an error that wraps io.EOF) at EVERY byte offset (thorough also 1-byte reads); builder: every callback (fetch, versions, source address, finder) of every error-free world (<=2 Adds, <=1/2 edges) is a choice point {ok, error; finders: error diag, warning diag, error diag with file ranges}, all single (thorough: double) deviations; every world of the same enumeration whose analysis cannot succeed (escaping local dependency, unsatisfiable constraint) is built fault-free and must report an error; at every callback boundary the target directory is copied and opened (crash points). Non-trivial = the injected fault was reached; distinct by (position, outcome)."
 	rep.Assumptions = []string{"file-system faults inside Unpack/Builder are not injected (os is not behind a seam)", "a fault placed after the last byte the tar reader consumes is legitimately invisible"}
 	return rep.Finish()
 }
